@@ -329,5 +329,30 @@ PROPS["C12"] = {
     "assumptions": ["Basic.Publish is C02's; Connection.Close / Channel.Open are observed by C08 / C10 / C16"],
 }
 
+
+PROPS["C19"] = {
+    "check_mods": ["C19"],
+    "model_out": "model_out",
+    "drivers": [{"name": "c19", "n_quick": 3000, "n_thorough": 200000, "timeout": 3000}],
+    "rule": "URLs ASSEMBLED from components: scheme (amqp, amqps, two others), user / password absent or text "
+            "over an alphabet of characters that need encoding (@ : / ? # % space + & = UTF-8, literal %41), "
+            "6 host forms incl. absent and IPv6, 5 ports or none, virtual host absent / empty / text, an extra "
+            "path segment in 1 of 12, 0-4 query pairs from {heartbeat, channel_max, connection_timeout with "
+            "numbers at the u16 / u64 edges, '+', leading zeros, empty, junk; auth_mechanism external / "
+            "other; unknown keys; a percent-escaped key}, repeated keys. The real `url` crate splits the URL "
+            "(its view is what the model gets), verif::decode_url interprets it, and the real secure-only "
+            "Connection::open is called for every amqp:// URL. Every case is non-trivial; distinct = distinct URL.",
+    "explanation": "C19_* (percent round trip, first error, last occurrence, EXTERNAL precedence, defaults, "
+                   "secure gate). The decoded parameters must equal the model's; the oracle compares them "
+                   "with what the generator MEANT (the components before encoding) and with the property's "
+                   "clauses computed independently (last occurrence, Rust-style integer syntax, defaults); "
+                   "Connection::open on amqp:// must answer InsecureUrl (or the URL's own error) and never "
+                   "attempt a connection.",
+    "trusted_base": ["the `url` crate's splitting and normalisation (dot segments, empty user info), "
+                     "percent-encoding crate, str::parse, decode_utf8_lossy (texts are valid UTF-8)"],
+    "assumptions": ["a virtual host named '.' or '..' cannot be spelled in a URL: the URL standard removes dot "
+                    "segments even when percent-encoded (not generated; DESIGN.md)"],
+}
+
 # properties not claimed, with the reason (kept current)
 NOT_APPLICABLE = {}
